@@ -26,13 +26,20 @@ abbrev Bytes := List Nat
 
 /-! ## The handler call (processor.go:414-448) -/
 
+/-- the kind of value a handler panics with: an `error` (runtime errors, `panic(err)`), a `string`
+(`panic("…")`, `log.Panic`), or anything else (`panic(42)`, a struct, the `[]interface{}` of
+`log.Panicf`) -/
+inductive PanicVal where
+  | err | str | other
+  deriving Repr, DecidableEq
+
 /-- what a registered handler does when called: it returns a reply, returns an error, or panics;
 `fits` says whether the error text fits into a websocket close frame (≤ 123 bytes with the
 "unexpected error: " prefix) -/
 inductive HandlerResult (R : Type) where
   | ret (r : R)
   | fail (fits : Bool)
-  | panics (fits : Bool)
+  | panics (v : PanicVal) (fits : Bool)
   deriving Repr, DecidableEq
 
 /-- the error classes of a client request -/
@@ -49,7 +56,8 @@ into an error value; there is no other way out of the call. -/
 def callBarrier {R : Type} : HandlerResult R → Except (Why × Bool) R
   | .ret r => .ok r
   | .fail fits => .error (.handler, fits)
-  | .panics fits => .error (.panic, fits)
+  -- `err = xerrors.Errorf("panic: %v", r)` for every recovered value `r`, whatever its type
+  | .panics _ fits => .error (.panic, fits)
 
 /-! ## Websocket: `ProcessClientRequest` and the read loop -/
 
@@ -412,6 +420,60 @@ def clRun (locking : Bool) (f : Bytes → Bytes) (c : Cl) : List ClAct → Cl
     | some c' => clRun locking f c' as
     | none => clRun locking f c as
 
+/-! ## The client: `Client.SendProtobufParallelWithDecoder` (websocket_client.go:339-417)
+
+The request goes to several nodes at once, one routine per node in flight; all routines decode into
+the caller's one `ret`.  A routine that got a reply takes the `decoding` mutex and, if nobody has won
+yet (`done` still open), decodes its reply into `ret`, announces its node and closes `done` — one
+critical section, hence one step.  `lockedDecode = false` describes a client that decodes before
+taking the mutex (for the negative result): check `done`, decode, then announce under the mutex. -/
+
+inductive PPc where
+  | waiting     -- `c.Send` to its node has not returned yet
+  | got         -- reply received
+  | decoding    -- (unlocked variant) passed the `done` check, about to decode into `ret`
+  | announce    -- (unlocked variant) decoded, about to take the mutex and announce
+  | finished
+  deriving Repr, DecidableEq
+
+structure Par where
+  /-- the reply of node `i` -/
+  replies : List Bytes
+  pcs : List PPc
+  done : Bool := false
+  /-- the caller's `ret` -/
+  ret : Option Bytes := none
+  /-- the node handed back through `decodedChan` -/
+  winner : Option Nat := none
+  deriving Repr, DecidableEq
+
+def parInit (replies : List Bytes) : Par := { replies := replies, pcs := replies.map fun _ => .waiting }
+
+/-- routine `i` performs its next action -/
+def parStep (lockedDecode : Bool) (p : Par) (i : Nat) : Option Par :=
+  match p.pcs[i]?, p.replies[i]? with
+  | some .waiting, some _ => some { p with pcs := p.pcs.set i .got }
+  | some .got, some r =>
+    if lockedDecode then
+      -- `decoding.Lock(); select { case <-done: default: decoder(reply, ret); decodedChan <- node; close(done) }`
+      if p.done then some { p with pcs := p.pcs.set i .finished }
+      else some { p with pcs := p.pcs.set i .finished, ret := some r, winner := some i, done := true }
+    else
+      if p.done then some { p with pcs := p.pcs.set i .finished }
+      else some { p with pcs := p.pcs.set i .decoding }
+  | some .decoding, some r => some { p with pcs := p.pcs.set i .announce, ret := some r }
+  | some .announce, some _ =>
+    if p.done then some { p with pcs := p.pcs.set i .finished }
+    else some { p with pcs := p.pcs.set i .finished, winner := some i, done := true }
+  | _, _ => none
+
+def parRun (lockedDecode : Bool) (p : Par) : List Nat → Par
+  | [] => p
+  | i :: is =>
+    match parStep lockedDecode p i with
+    | some p' => parRun lockedDecode p' is
+    | none => parRun lockedDecode p is
+
 /-! ## The concrete service of the correspondence run (harness/cmd/onetharness/c14svc.go) -/
 
 /-- request fields `A int64`, `S string`, `B []byte` -/
@@ -432,12 +494,20 @@ structure Reply where
 def sFail : Bytes := [102, 97, 105, 108]
 def sPanic : Bytes := [112, 97, 110, 105, 99]
 def sNil : Bytes := [110, 105, 108]
+/-- "panicerr", "panicint", "panicstruct", "panicf": `panic(errors.New(…))`, `panic(42)`,
+`panic(struct{…}{…})`, `log.Panicf(…)` -/
+def sPanicErr : Bytes := [112, 97, 110, 105, 99, 101, 114, 114]
+def sPanicInt : Bytes := [112, 97, 110, 105, 99, 105, 110, 116]
+def sPanicStruct : Bytes := [112, 97, 110, 105, 99, 115, 116, 114, 117, 99, 116]
+def sPanicf : Bytes := [112, 97, 110, 105, 99, 102]
 
 /-- `c14Transform(tag, a, s, b)`; `tag` is "/" followed by the handler's tag, as bytes -/
 def transform (tag : Bytes) (m : Msg) : HandlerResult Reply :=
   if m.s = sFail then .fail true
-  else if m.s = sPanic then .panics true
-  else if m.s = sNil then .panics true
+  else if m.s = sPanic then .panics .str true
+  else if m.s = sNil then .panics .err true
+  else if m.s = sPanicErr then .panics .err true
+  else if m.s = sPanicInt ∨ m.s = sPanicStruct ∨ m.s = sPanicf then .panics .other true
   else .ret { a := m.a, s := m.s ++ tag, b := m.b.reverse, n := m.s.length + m.b.length }
 
 /-! ### protobuf decoding of `Msg` as go.dedis.ch/protobuf does it (decode.go) -/
@@ -757,6 +827,12 @@ def step (s : State) (toks : List String) : State × String :=
     match restShow s method ctype res tail body with
     | some r => r
     | none => (s, "bad-op")
+  | ["par", _thr, _client, nodes, nonce, mode] =>
+    -- `SendProtobufParallelWithDecoder` to `nodes` servers: which node wins depends on the schedule,
+    -- that the reply handed back is the one of the node handed back does not (`c14_parallel_pair`)
+    match nodes.toNat?, nonce.toInt? with
+    | some n, some _ => (s, if 3 ≤ n ∧ (mode = "overlap" ∨ mode = "plain") then "ok pair" else "bad-op")
+    | _, _ => (s, "bad-op")
   | ["barrier"] => (s, "ok")
   | ["procs", n] => (s, if n.toNat?.isSome then "ok" else "bad-op")   -- GOMAXPROCS of the server process: no effect
   | ["calls"] => (s, toString s.calls)
